@@ -50,6 +50,14 @@ func verifChdirRoot() {
 // Everything that depends on the profiles (native support, allowed types of a prefix) is read from the same
 // directory by the harness, so the expectations follow.
 func verifCustomProfiles(root string) {
+	// scratch directories of earlier runs are swept here (this process cannot remove its own: it lives in it)
+	if old, _ := filepath.Glob(filepath.Join(os.TempDir(), "verif-profiles-*")); old != nil {
+		for _, o := range old {
+			if st, err := os.Stat(o); err == nil && time.Since(st.ModTime()) > 10*time.Minute {
+				_ = os.RemoveAll(o)
+			}
+		}
+	}
 	dir, err := os.MkdirTemp("", "verif-profiles-")
 	if err != nil {
 		panic(err)
